@@ -173,7 +173,10 @@ def run(ctx):
             continue
         for rep in range(4 if ctx.quick else 40):
             sel = [ctx.rng.choice(vs) for _ in range(5)]
-            da = L.build_batch(list(F), list(D), [v["E"] for v in sel], dim="time")
+            # the lattice energies are integers: the same spectra held as int32 / int64 / big-endian doubles must be rescaled to the
+            # same heights (the factor is fractional whatever the storage type of the data)
+            store = ctx.rng.choice(("float64", "float64", "int32", "int64", ">f8"))
+            da = L.build_batch(list(F), list(D), [v["E"] for v in sel], dim="time", dtype=store)
             da = da.assign_coords(time=np.arange(5))
             hs = [L.ev(v["hs"]) for v in sel]
             # a spectrum without an interior peak has no peak period / direction: it meets no tp or dpm range
@@ -207,7 +210,7 @@ def run(ctx):
                         ctx.violation({"op": "scale_by_hs", "inrange": bool(inrange[i]), "args": sorted(kw)},
                                       "scale_by_hs: position %d (hs=%.6g, tp=%.6g, in range=%s) has hs %.9g afterwards, expected %.9g%s" %
                                       (i, hs[i], tp[i], inrange[i], hs_new[i], exp, "" if inrange[i] or same else " and untouched data"),
-                                      {"F": list(F), "D": list(D), "E": [v["E"] for v in sel], "kw": kw})
+                                      {"store": store, "F": list(F), "D": list(D), "E": [v["E"] for v in sel], "kw": kw})
             done += 1
     ctx.note("scale_by_hs_datasets", done)
     ctx.assume("gw (Bunney's width) is not scale-homogeneous by its own formula and is excluded from the scaling relation")
